@@ -167,7 +167,7 @@ func (e *Env) concJob(bin, variant string, from, n, sites int, race bool, id str
 	j.Env = []string{"GOMAXPROCS=1"}
 	if race {
 		j.RaceLog = filepath.Join(e.WorkDir, "race-"+id)
-		j.Env = append(j.Env, "GORACE=halt_on_error=1 exitcode=66 log_path="+j.RaceLog)
+		j.Env = append(j.Env, "GORACE=halt_on_error=1 exitcode=66 history_size=7 log_path="+j.RaceLog)
 	}
 	return j
 }
@@ -418,6 +418,7 @@ func CheckConc(e *Env) (int, error) {
 		Assumptions: []string{
 			"preemption granularity is the source statement of instrumented packages; the standard library, x/crypto, tuplehash, fiat and the assembly execute atomically",
 			"the race detector is kept blind to the scheduler's hand-offs by runtime.RaceDisable/RaceEnable and //go:norace harness functions; it still sees every memory access of library code",
+			"the race detector reports a race only while it can reconstruct the earlier access from that goroutine's event history; it runs with history_size=7 (the maximum: about half a million events per goroutine), so an access is forgotten once its goroutine has executed that much more - conflicting accesses separated by a longer stall of one caller can go unreported (the plain-build result oracles do not have this limit)",
 			"at most 6 callers x 6 operations per run; schedules are sampled from VERIF_SEED",
 		}}
 	if err := writeEvidence(e.VerifDir, ev); err != nil {
@@ -545,11 +546,11 @@ var _ = bytes.Equal
 // serialising scheduler two tasks writing one variable must be reported by
 // the race detector, two tasks writing their own variables must not.
 func (e *Env) raceCanary(raceBin string) error {
-	for _, mode := range []string{"shared", "private"} {
+	for _, mode := range []string{"shared", "stale", "private"} {
 		logPrefix := filepath.Join(e.WorkDir, "canary-"+mode)
 		cmd := exec.Command(raceBin, "-noselftest", "-canary", mode)
 		cmd.Dir = e.WorkDir
-		cmd.Env = append(os.Environ(), "GOMAXPROCS=1", "GORACE=halt_on_error=1 exitcode=66 log_path="+logPrefix)
+		cmd.Env = append(os.Environ(), "GOMAXPROCS=1", "GORACE=halt_on_error=1 exitcode=66 history_size=7 log_path="+logPrefix)
 		out, err := cmd.CombinedOutput()
 		code := 0
 		if ee, ok := err.(*exec.ExitError); ok {
@@ -559,13 +560,15 @@ func (e *Env) raceCanary(raceBin string) error {
 		}
 		report := readRaceLogs(logPrefix) + string(out)
 		switch {
+		case mode == "stale" && (code != 66 || !strings.Contains(report, "canaryTouch")):
+			return harnessErr("the race oracle forgets: a write followed by 50 000 further calls (about 200 000 instrumented events) of the same caller was no longer reported when a stalled caller finally touched the variable (exit %d); the race detector's per-goroutine history (GORACE history_size) is too small for the stalls the scheduler imposes:\n%s", code, report)
 		case mode == "shared" && (code != 66 || !strings.Contains(report, "canaryTouch")):
 			return harnessErr("the race oracle is blind: two simulated callers wrote one variable under the scheduler and the race detector did not report it (exit %d):\n%s", code, report)
 		case mode == "private" && code != 0:
 			return harnessErr("the race oracle raises alarms of its own: two simulated callers that share nothing were reported (exit %d):\n%s", code, report)
 		}
 	}
-	Logf("race-oracle canary ok (shared variable reported, private variables silent)")
+	Logf("race-oracle canary ok (shared variable reported, also after 200 000 intervening events of the writer; private variables silent)")
 	return nil
 }
 
